@@ -307,6 +307,11 @@ class XMLReader(object):
         :param string: XML string.
         :returns: a parsed odml.Document.
         """
+        # lxml does not accept unicode strings that carry an XML encoding
+        # declaration (as every saved odML file does); hand such text over as bytes.
+        if isinstance(string, str):
+            string = string.encode("utf-8")
+
         try:
             root = ET.XML(string, self.parser)
         except ET.XMLSyntaxError as exc:
